@@ -8,6 +8,8 @@ void set_case_timeout(int s);
 bool write_file(const std::string &path, const std::string &content);
 bool read_file(const std::string &path, std::string &content);
 int replay_main(const std::string &path);
+void capture_begin();
+std::string capture_end();
 
 struct SubStats {
   long evaluations = 0;
